@@ -6,10 +6,12 @@ package main
 import (
 	"fmt"
 	"go/types"
+	"os"
 	"regexp"
 	"sort"
 	"strconv"
 	"strings"
+	"sync"
 
 	"golang.org/x/tools/go/ssa"
 )
@@ -301,6 +303,7 @@ func (ex *Exec) enterLoop(fr *Frame, lp *loopRec, reach string, st *State) (stri
 	}
 	// ---- discovery pass 2: are the written references loop-invariant?
 	fullHavoc := map[string]bool{}
+	freshOnly := map[string]bool{} // variant writes go to objects allocated inside the loop only
 	pointRefs := map[string][]string{}
 	if len(compsWritten) > 0 {
 		d2 := ex.cloneForTrial()
@@ -314,21 +317,32 @@ func (ex *Exec) enterLoop(fr *Frame, lp *loopRec, reach string, st *State) (stri
 		d2.runLoopBody(f2, lp, reach, s2)
 		memo := map[string]bool{}
 		for _, w := range d2.wlog.recs {
-			if fullHavoc[w.comp] {
-				continue
-			}
-			if w.comp == compAlloc || d2.sc.dependsOnFresh(w.ref, n0, memo) {
+			if w.comp == compAlloc {
 				fullHavoc[w.comp] = true
 				continue
 			}
+			if d2.sc.dependsOnFresh(w.ref, n0, memo) {
+				if !fullHavoc[w.comp] {
+					fullHavoc[w.comp] = true
+					freshOnly[w.comp] = true
+				}
+				if !d2.isFreshRefTerm(w.ref, n0, 0) {
+					if os.Getenv("GOVC_DEBUG") != "" && ex.record && freshOnly[w.comp] {
+						fmt.Fprintf(os.Stderr, "  non-fresh variant write to %s at %s = %s\n", w.comp, w.ref, trunc(d2.sc.expandDefs(w.ref, n0), 300))
+					}
+					freshOnly[w.comp] = false
+				}
+				continue
+			}
+			ref := d2.sc.expandDefs(w.ref, n0)
 			dup := false
 			for _, r := range pointRefs[w.comp] {
-				if r == w.ref {
+				if r == ref {
 					dup = true
 				}
 			}
 			if !dup {
-				pointRefs[w.comp] = append(pointRefs[w.comp], w.ref)
+				pointRefs[w.comp] = append(pointRefs[w.comp], ref)
 			}
 		}
 		// make sure sorts of components first seen in the trial are known
@@ -339,6 +353,9 @@ func (ex *Exec) enterLoop(fr *Frame, lp *loopRec, reach string, st *State) (stri
 		}
 	}
 
+	if os.Getenv("GOVC_DEBUG") != "" && ex.record {
+		fmt.Fprintf(os.Stderr, "loop %s#%d: cells=%d comps=%v full=%v freshOnly=%v point=%v\n", shortFn(fr.fn), lp.ordinal, len(cells), sortedKeysB(compsWritten), sortedKeysB(fullHavoc), freshOnly, pointRefs)
+	}
 	lc := &loopCtx{preState: st.clone()}
 	ex.loopCtxs[loopKey{fr.id, lp.header}] = lc
 	spec := ex.eng.specs.loopSpec(shortFn(fr.fn), lp.ordinal)
@@ -371,6 +388,16 @@ func (ex *Exec) enterLoop(fr *Frame, lp *loopRec, reach string, st *State) (stri
 			continue
 		}
 		if fullHavoc[c] {
+			if freshOnly[c] {
+				// objects that existed before the loop keep their contents, except
+				// at the loop-invariant references that are written explicitly
+				a0 := ex.comp(st, compAlloc, sArr(sInt, sBool))
+				excl := []string{mkSelect(a0, "r")}
+				for _, r := range pointRefs[c] {
+					excl = append(excl, mkNot(mkEq("r", r)))
+				}
+				ex.sc.assert(fmt.Sprintf("(forall ((r Int)) (! (=> %s (= (select %s r) (select %s r))) :pattern ((select %s r))))", mkAnd(excl...), nw, old, nw))
+			}
 			hst.heap[c] = nw
 			continue
 		}
@@ -458,16 +485,16 @@ func (ex *Exec) inferCandidates(fr *Frame, lp *loopRec, st *State, cells []cellK
 		if _, _, isInt := intInfo(v.T); isInt && len(v.L) == 1 {
 			init := v.L[0]
 			out = append(out, invariant{kind: "inferred", desc: name + " >= its value at loop entry",
-				eval: func(e *Exec, f *Frame, s *State) string { return mkCmp(">=", s.cells[ck].L[0], init) }})
+				eval: func(e *Exec, f *Frame, s *State) string { return cellCmp(s, ck, 0, ">=", init) }})
 			out = append(out, invariant{kind: "inferred", desc: name + " <= its value at loop entry",
-				eval: func(e *Exec, f *Frame, s *State) string { return mkCmp("<=", s.cells[ck].L[0], init) }})
+				eval: func(e *Exec, f *Frame, s *State) string { return cellCmp(s, ck, 0, "<=", init) }})
 			continue
 		}
 		if _, isSlice := v.T.Underlying().(*types.Slice); isSlice && len(v.L) == 4 {
 			// a slice variable that only grows or stays
 			initLen := v.L[2]
 			out = append(out, invariant{kind: "inferred", desc: "len(" + name + ") >= its value at loop entry",
-				eval: func(e *Exec, f *Frame, s *State) string { return mkCmp(">=", s.cells[ck].L[2], initLen) }})
+				eval: func(e *Exec, f *Frame, s *State) string { return cellCmp(s, ck, 2, ">=", initLen) }})
 		}
 	}
 	// guard-derived bounds
@@ -502,21 +529,61 @@ func (ex *Exec) inferCandidates(fr *Frame, lp *loopRec, st *State, cells []cellK
 		}
 	}
 	// keep only candidates that hold on entry
+	goals := make([][]string, len(out))
+	for i, c := range out {
+		goals[i] = []string{c.eval(ex, fr, st)}
+	}
+	res := ex.quickProveAll(goals)
 	var kept []invariant
-	for _, c := range out {
-		g := c.eval(ex, fr, st)
-		if g == "true" {
-			kept = append(kept, c)
-			continue
-		}
-		if g == "false" {
-			continue
-		}
-		if ex.quickProve(g) {
+	for i, c := range out {
+		if res[i] {
 			kept = append(kept, c)
 		}
 	}
 	return kept
+}
+
+// quickProveAll decides, in parallel, whether every goal of each group holds.
+func (ex *Exec) quickProveAll(groups [][]string) []bool {
+	res := make([]bool, len(groups))
+	var wg sync.WaitGroup
+	sem := make(chan struct{}, 12)
+	base := append(prelude("ALL"), ex.sc.lines...)
+	for i, gs := range groups {
+		res[i] = true
+		var todo []string
+		for _, g := range gs {
+			if g == "true" {
+				continue
+			}
+			if g == "false" {
+				res[i] = false
+			}
+			todo = append(todo, g)
+		}
+		if !res[i] || len(todo) == 0 {
+			continue
+		}
+		wg.Add(1)
+		go func(i int, todo []string) {
+			defer wg.Done()
+			sem <- struct{}{}
+			defer func() { <-sem }()
+			lines := append([]string{}, base...)
+			lines = append(lines, "(assert (not "+mkAnd(todo...)+"))", "(check-sat)")
+			file := writeQuery("houdini", lines)
+			st, _, _ := runSolver(solvers[0], file, 1)
+			if !keepScratch {
+				removeFile(file)
+			}
+			if st != "unsat" {
+				res[i] = false
+			}
+		}(i, todo)
+	}
+	wg.Wait()
+	ex.eng.sideQueries += len(groups)
+	return res
 }
 
 func rootOfComp(c string) string {
@@ -551,19 +618,15 @@ func (ex *Exec) houdini(fr *Frame, lp *loopRec, reach string, hst *State, cands 
 		backs := t.runLoopBody(tf, lp, reach, ts)
 		var kept []invariant
 		dropped := false
-		for _, c := range cands {
-			ok := true
+		groups := make([][]string, len(cands))
+		for i, c := range cands {
 			for _, b := range backs {
-				g := mkImp(b.cond, c.eval(t, b.fr, b.st))
-				if g == "true" {
-					continue
-				}
-				if !t.quickProve(g) {
-					ok = false
-					break
-				}
+				groups[i] = append(groups[i], mkImp(b.cond, c.eval(t, b.fr, b.st)))
 			}
-			if ok {
+		}
+		res := t.quickProveAll(groups)
+		for i, c := range cands {
+			if res[i] {
 				kept = append(kept, c)
 			} else {
 				dropped = true
@@ -694,13 +757,110 @@ func (ex *Exec) guardCandidates(fr *Frame, lp *loopRec, st *State, cells []cellK
 					d := d
 					out = append(out, invariant{kind: "inferred", desc: fmt.Sprintf("%s <= bound%+d", nm, d),
 						eval: func(e *Exec, f *Frame, s *State) string {
-							return mkCmp("<=", s.cells[ck].L[0], mkAdd(bt, num(d)))
+							return cellCmp(s, ck, 0, "<=", mkAdd(bt, num(d)))
 						}})
 				}
 				out = append(out, invariant{kind: "inferred", desc: fmt.Sprintf("%s >= bound", nm),
-					eval: func(e *Exec, f *Frame, s *State) string { return mkCmp(">=", s.cells[ck].L[0], bt) }})
+					eval: func(e *Exec, f *Frame, s *State) string { return cellCmp(s, ck, 0, ">=", bt) }})
 			}
 		}
+	}
+	return out
+}
+
+func cellCmp(s *State, ck cellKey, leaf int, op, bound string) string {
+	v, ok := s.cells[ck]
+	if !ok || len(v.L) <= leaf {
+		return "true"
+	}
+	return mkCmp(op, v.L[leaf], bound)
+}
+
+// expandDefs replaces every symbol created after n0 by its definition.
+func (sc *Script) expandDefs(term string, n0 int) string {
+	for iter := 0; iter < 50; iter++ {
+		changed := false
+		term = symRe.ReplaceAllStringFunc(term, func(name string) string {
+			m := symRe.FindStringSubmatch(name)
+			n, _ := strconv.Atoi(m[1])
+			if n <= n0 {
+				return name
+			}
+			if def, ok := sc.defOf[name]; ok {
+				changed = true
+				return def
+			}
+			return name
+		})
+		if !changed {
+			break
+		}
+	}
+	return term
+}
+
+// isFreshRefTerm: the reference denotes an object allocated after script
+// position n0 (possibly an if-then-else over such objects).
+func (ex *Exec) isFreshRefTerm(term string, n0 int, depth int) bool {
+	if depth > 60 {
+		return false
+	}
+	term = strings.TrimSpace(term)
+	if ex.freshRefs[term] {
+		m := symRe.FindStringSubmatch(term)
+		if m != nil {
+			n, _ := strconv.Atoi(m[1])
+			return n > n0
+		}
+		return false
+	}
+	if def, ok := ex.sc.defOf[term]; ok {
+		return ex.isFreshRefTerm(def, n0, depth+1)
+	}
+	if strings.HasPrefix(term, "(ite ") {
+		parts := splitSexp(term[5 : len(term)-1])
+		if len(parts) == 3 {
+			return ex.isFreshRefTerm(parts[1], n0, depth+1) && ex.isFreshRefTerm(parts[2], n0, depth+1)
+		}
+	}
+	if os.Getenv("GOVC_DEBUG") != "" {
+		fmt.Fprintf(os.Stderr, "    not fresh: %s\n", trunc(term, 200))
+	}
+	return false
+}
+
+// splitSexp splits the top-level elements of an s-expression body.
+func splitSexp(s string) []string {
+	var out []string
+	depth := 0
+	start := -1
+	for i := 0; i < len(s); i++ {
+		c := s[i]
+		switch {
+		case c == '(':
+			if depth == 0 && start < 0 {
+				start = i
+			}
+			depth++
+		case c == ')':
+			depth--
+			if depth == 0 && start >= 0 {
+				out = append(out, s[start:i+1])
+				start = -1
+			}
+		case c == ' ' || c == '\n':
+			if depth == 0 && start >= 0 {
+				out = append(out, s[start:i])
+				start = -1
+			}
+		default:
+			if depth == 0 && start < 0 {
+				start = i
+			}
+		}
+	}
+	if start >= 0 {
+		out = append(out, s[start:])
 	}
 	return out
 }
